@@ -392,18 +392,19 @@ def edit_constant(parameterized):
     # from an unlocked class-level Parameter is left unlocked afterwards.
     updated = []
     existing = parameterized.param.objects(instance='existing')
-    for pname in list(parameterized.param.objects(instance=False)):
-        # (only constants get an instance-level copy here: an object keeps
-        # following its class for all the other Parameters)
-        if not existing[pname].constant:
-            continue
-        pobj = parameterized.param[pname]
-        if pobj.constant:
-            pobj.constant = False
-            updated.append(pobj)
-            # copies made from it meanwhile (see _instantiate_param_obj)
-            _unlocked_constants[id(pobj)] = []
     try:
+        for pname in list(parameterized.param.objects(instance=False)):
+            # (only constants get an instance-level copy here: an object keeps
+            # following its class for all the other Parameters)
+            if not existing[pname].constant:
+                continue
+            pobj = parameterized.param[pname]
+            if pobj.constant:
+                # (recorded first: a watcher of the attribute may raise)
+                updated.append(pobj)
+                # copies made from it meanwhile (see _instantiate_param_obj)
+                _unlocked_constants[id(pobj)] = []
+                pobj.constant = False
         yield
     finally:
         failure = None
